@@ -149,6 +149,7 @@ pub fn dispatch(fs: &[String]) -> String {
         }
         "ast_locs" => crate::astdump::ast_locs(a(1)),
         "tmpl_scopes" => crate::scopedump::tmpl_scopes(a(1)),
+        "tag_tree" => crate::treedump::tag_tree(a(1)),
         "strmap" => crate::astdump::strmap(a(1), a(2) == "1"),
         _ => "bad-op".to_string(),
     }
